@@ -749,7 +749,9 @@ def _outline_writes(tree: ast.AST):
                     if isinstance(op, (ast.BitOr, ast.BitAnd)):
                         quals = {id(x.value) for x in ast.walk(v) if isinstance(x, ast.Attribute)}  # `mod.FLAG`: the flag is the attribute
                         bits = {x.id for x in ast.walk(v) if isinstance(x, ast.Name) and id(x) not in quals} | {x.attr for x in ast.walk(v) if isinstance(x, ast.Attribute) and id(x) not in quals}
-                        if bits and bits <= set(REVIEWED_FLAG_BITS) and not any(isinstance(x, ast.Constant) for x in ast.walk(v)):
+                        # the simple-glyph overlap hint lives in the flag of the first point only
+                        first = not isinstance(el, ast.Subscript) or (isinstance(el.slice, ast.Constant) and el.slice.value == 0)
+                        if bits and bits <= set(REVIEWED_FLAG_BITS) and not any(isinstance(x, ast.Constant) for x in ast.walk(v)) and first:
                             continue
                 out.append((n, f"{T(el, 50)} written"))
         if isinstance(n, ast.Call) and isinstance(n.func, ast.Attribute):
@@ -789,6 +791,7 @@ def r0216(prog, chk):
 
 
 MUTANTS = [
+    M("overlap hint set on the second point's flag (mutation scan 3, k=99)", "ufo2ft/instructionCompiler.py", "InstructionCompiler._set_simple_flags", "ttglyph.flags[0] |= flagOverlapSimple", "ttglyph.flags[1] |= flagOverlapSimple", rule="R02.16"),
     M("compiled glyph post-processed: duplicate points dropped (seeded C02i)", "ufo2ft/outlineCompiler.py", "OutlineTTFCompiler.compileGlyphs",
       "ttGlyphs[name] = ttGlyph", "if ttGlyph.numberOfContours > 0 and self.dropImpliedOnCurves:\n    ttGlyph.coordinates = ttGlyph.coordinates[:-1]\n    ttGlyph.flags = ttGlyph.flags[:-1]\n    ttGlyph.endPtsOfContours[-1] -= 1\nttGlyphs[name] = ttGlyph", rule="R02.16"),
     M("compiled coordinates shifted in place", "ufo2ft/outlineCompiler.py", "OutlineTTFCompiler.compileGlyphs",
